@@ -18,7 +18,7 @@ def run(tier, seed):
         {"prog": "arena", "strategy": "random", "runs": (40, 500), "args": ["--rate", "3"]},
     ]
     V, cov2 = concfam.run_conc("C15", tier, seed, jobs, GUARDS, mc=("MiAbandonMC", ("MiAbandon_mc.cfg", "MiAbandon_mc_thorough.cfg")), guided_progs=(), V=V, finish=False)
-    cov["adoption"] = {k: cov2[k] for k in ("traces_validated_against_impl", "trace_events_validated", "programs", "strategies")}
+    cov["adoption"] = {k: cov2[k] for k in ("traces_validated_against_impl", "trace_events_validated", "program_names", "strategies")}
     cov["traces_validated_against_impl"] += cov2["traces_validated_against_impl"]
     cov["samples"] = cov["samples"] + cov2["samples"][:2]
     return V.finish("model_checking", cov, assumptions=[
